@@ -40,6 +40,7 @@ import coreprop
 import impl
 import lib
 import dispatchtie
+import routasttie
 import leaftie
 import capstonetie
 import universe
@@ -49,6 +50,7 @@ COQ_TARGETS = ["theories/Props/C01.vo", "theories/Model/CoreTables.vo"]
 COQ_TARGETS = COQ_TARGETS + [t for t in dispatchtie.COQ_TARGETS if t not in COQ_TARGETS]
 COQ_TARGETS = COQ_TARGETS + [t for t in leaftie.COQ_TARGETS if t not in COQ_TARGETS]
 COQ_TARGETS = COQ_TARGETS + [t for t in capstonetie.COQ_TARGETS if t not in COQ_TARGETS]
+COQ_TARGETS = COQ_TARGETS + [t for t in routasttie.COQ_TARGETS if t not in COQ_TARGETS]
 THEOREMS = ["C01_roundtrip", "C01_union_fixpoint", "C01_keys_of_leaf_law", "C01_fuel_unm", "C01_fuel_mar",
             "C01_refuted_full", "C01_refuted_union_foreign_marshaller", "C01_refuted_fixpoint_noncanonical"]
 UTC = D.timezone.utc
@@ -1361,6 +1363,7 @@ def correspond(run: lib.Run):
     # the leaf laws (RoundLaws ...) are theorems of the scalar model under interpreter-level laws (Props/LeafBridge.v);
     # every scalar leaf call recorded on this run is re-evaluated on that scalar model
     lib.run_tie(run, leaftie, groups=groups, tag="c01", streams=False)
+    lib.run_tie(run, routasttie, props=False)      # the __call__ bodies of the composite routine classes, parsed and translated on this run, ARE Core's steps (Props/RoutineAst.v)
     lib.run_tie(run, capstonetie)      # the bridges compose: end-to-end statements on one runtime (Props/Capstone.v) + example replayed on /repo
     run._c01_bad = bad
     # hypotheses of the theorem on the generated (T, v)
